@@ -65,6 +65,34 @@ pub mod greedy_dot {
         X,
     }
 }
+pub mod greedy_dot_hidden {
+    //! the greedy dot is not visible in the attribute text: it comes from a subpattern or from a string escape
+    use logos::Logos;
+    #[derive(Logos)]
+    #[logos(subpattern rest = r".*")]
+    pub enum A {
+        #[regex(r"//(?&rest)")]
+        X,
+    }
+    #[derive(Logos)]
+    #[logos(subpattern tail = r".+")]
+    #[logos(skip(r"#(?&tail)", allow_greedy = false))]
+    pub enum B {
+        #[token("a")]
+        X,
+    }
+    #[derive(Logos)]
+    pub enum C {
+        #[regex("-.\x2a")]
+        X,
+    }
+    #[derive(Logos)]
+    #[logos(subpattern any = r"[^\n]")]
+    pub enum D {
+        #[regex(r"%(?&any){2,}")]
+        X,
+    }
+}
 pub mod undefined_subpattern {
     use logos::Logos;
     #[derive(Logos)]
